@@ -27,7 +27,7 @@ CLAIMED = {
              "(statement-level may-precede analysis over typed effect summaries); (R3.5b) no element that is invalid as created "
              "is attached before a completing store that can reject its value, nor left incomplete; (R3.7) an element emptied of a child its "
              "schema type requires gets one back on every path to the end of the function. Child positions of later "
-             "insertions are C10, value spaces C11, chart templates C07. 14 genuine refusal-path defects are carried as known "
+             "insertions are C10, value spaces C11, chart templates C07. 13 genuine refusal-path defects are carried as known "
              "findings. NOT decided: validity under arbitrary operation histories (cardinality).",
         technique="static analysis: abstract string evaluation -> XML skeleton -> regular-language inclusion in XSD content-model "
                   "automata; effect summaries over a typed call graph with statement-level may-precede (mutation before raise); "
